@@ -129,8 +129,9 @@ class ConvRef(Monitor):
 
     def facets(self, w, **kw):
         f = {"acc": self.acc, "conv": w.spec.kind}
-        r = self.T / self.tau
-        if abs(r - round(r)) > 1e-9:
+        if abs(w.spec.cap * self.tau - self.T) > 1e-9:
+            # the library's capacity (int(ceil(length)/item_length)) times the item length is not the belt length:
+            # its travel delay item_length*capacity/speed differs from length/speed (KF13)
             f["length_multiple_of_item"] = False
         f.update(kw)
         return f
